@@ -70,6 +70,7 @@ int main()
     {
         if (line.empty())
             continue;
+        vh::case_alarm(300);
         auto f = vh::fields(line);
         vk::Space sp = vk::parse_space(f);
         std::vector<int> data(sp.N);
